@@ -37,7 +37,10 @@ type Req struct {
 
 // NewPeer starts a websocket server, dials it, and wraps the client side in
 // the real endpoint client, whose serve loop is started.
-func NewPeer() (*Peer, error) {
+func NewPeer() (*Peer, error) { return NewPeerOpt(nil) }
+
+// NewPeerOpt is NewPeer with tunnel options for the client side.
+func NewPeerOpt(opt *sniproxy.Options) (*Peer, error) {
 	p := &Peer{connCh: make(chan *websocket.Conn, 1), reqs: make(chan Req, 1024)}
 	up := &websocket.Upgrader{ReadBufferSize: 64 << 10, WriteBufferSize: 64 << 10}
 	p.srv = httptest.NewServer(http.HandlerFunc(func(w http.ResponseWriter, r *http.Request) {
@@ -59,7 +62,7 @@ func NewPeer() (*Peer, error) {
 	case <-time.After(5 * time.Second):
 		return nil, errors.New("peer: no connection")
 	}
-	p.Client = sniproxy.VerifNewClient(cc, nil)
+	p.Client = sniproxy.VerifNewClient(cc, opt)
 	p.wg.Add(2)
 	go func() {
 		defer p.wg.Done()
